@@ -4,6 +4,28 @@ import json, os, sys
 ROOT = os.path.dirname(os.path.dirname(os.path.abspath(__file__)))
 BASE = json.load(open('/root/.vp/BASELINE.json'))
 
+# sub-checks added after the observe_at audit and the seeding rounds (DESIGN.md 0.2 / 0.5)
+ADDENDA = {
+ "C01": " Added later: the WithAlpha methods (with_alpha, without_alpha, split, opaque, transparent) on every node type; un-normalised hues in the lattice of every hue-bearing type; luma nodes in every white-point graph (all ten LumaStandard impls).",
+ "C02": " Added later: luma nodes for every LumaStandard impl and every white point (Luma -> Yxy etc.), un-normalised hues in the hue lattices.",
+ "C03": " Added later: the full (7-attribute) Cam16 through a struct-field spec; integer components (complete Rgb<u8> space, Luma, lower-bound-only Lms<u8/u16/u32>, Hwb<u8/u16>; plain, Alpha, slices); the Vec and Box<[_]> forms of FromColor / FromColorUnclamped for every discovered edge.",
+ "C04": " Added later: a compiler-decided probe over 636 instantiations Alpha<C<T>, A> (53 colours x 12 alpha types): ArrayCast must be implemented exactly when A is the component type, with matching size / alignment / item.",
+ "C05": " Added later: f64, Alpha and float-Luma wrapper forms for all LumaStandard impls; pure power laws (Adobe RGB, P3 gamma) are held to the closed form rounded to the float type; every f64 decoder table must carry f64 precision.",
+ "C07": " Added later: CAM16 (3 viewing conditions x the XYZ boundary lattice and the sRGB / Rec.2020 / Adobe RGB cube lattices through Cam16 and the six partial types forward and back and the UCS chain; the boundary lattice of the partial types through the inverse model), with the two NaN regions of the unchanged tree classified by an f64 reference (forward model of c16, inverse model cross-checked against it at start); xyY sources with y = 0 < Y.",
+ "C10": " Added later: colours above the soft Saturate limits (Lch chroma > max_chroma(), Cam16UcsJmh colourfulness > max_srgb_colorfulness()) take part in the exact form-vs-form comparisons.",
+ "C11": " Added later: whole-turn equality on SIMD lanes (AngleEq::angle_eq(x, x + 360k) for exactly representable shifts, both argument orders; x + 360k + 90 unequal).",
+ "C12": " Added later: the six public Packed aliases (type identity with Packed<named order, P> and a byte-position probe through each).",
+ "C14": " Added later: run-time white points through adaptation_matrix and the Matrix3 algebra (then / invert / identity); all 15 white point constants and the DCI white against the published tables; luma nodes as grey sources and the nine CIE-only white-point graphs.",
+ "C17": " Added later: 12 hue operations of the 5 hue types on SIMD vs scalar over a seam lattice (every lane position), hue-seam product states for every operator, slice / Vec forms of is_within_bounds and clamp_assign over 3 items x every lane assignment of in/out patterns, Alpha-wrapped conversions of 13 representative pairs (bitwise per lane vs the bare conversion).",
+ "C18": " Added later: explicit-state search for Alpha<Color<Vec<f32>>, Vec<u8>> (alpha element type differs from the colour's; Rgb, Lab, Hsv, Lch) against a Vec model.",
+ "C19": " Added later: Xyz for six further white points, D50 and Rec.2020 instances of the other parameterised types.",
+}
+NOTE_FIXES = {
+ "C01": [("Five genuine defects are recorded as known findings", "Seven entries are recorded as known findings")],
+ "C03": [(" Cam16 (full, not ArrayCast) is not included.", "")],
+ "C07": [("CAM16 is covered under C16.", "CAM16 finiteness is checked here (sub-check cam16/*), its fidelity under C16; two CAM16 NaN regions of the unchanged tree are recorded as known findings.")],
+}
+
 CHECKS = {
  # id: (category, technique, text, note, design_ref)
  "C01": ("model_checking",
@@ -116,6 +138,9 @@ def main():
     for pid in ALL:
         if pid not in CHECKS: continue
         cat, tech, text, note, ref = CHECKS[pid]
+        text += ADDENDA.get(pid, "")
+        for a, b in NOTE_FIXES.get(pid, []):
+            note = note.replace(a, b)
         checks.append({
             "property_id": pid,
             "quick_cmd": f"./check {pid} quick",
